@@ -73,15 +73,15 @@ def conformance(pid, tier, seed):
             cfgs = SERPENT_CFGS
         # per-family effort (TLC cost per key schedule differs by orders of magnitude)
         if fam == "Blowfish":
-            kw = dict(keys=6 if thorough else 2, blocks=3 if thorough else 2, lens="all")
+            kw = dict(keys=14 if thorough else 2, blocks=4 if thorough else 2, lens="all")
         elif fam in ("Serpent", "Kuznyechik", "Threefish", "Gift"):
-            kw = dict(keys=12 if thorough else 4, blocks=6 if thorough else 3, lens="all")
+            kw = dict(keys=30 if thorough else 4, blocks=8 if thorough else 3, lens="all")
         elif fam == "RC2":
-            kw = dict(keys=4 if thorough else 2, blocks=3 if thorough else 2, lens="all")
+            kw = dict(keys=8 if thorough else 2, blocks=4 if thorough else 2, lens="all")
         elif fam == "AES":
-            kw = dict(keys=24 if thorough else 6, blocks=8 if thorough else 3, lens="all")
+            kw = dict(keys=60 if thorough else 6, blocks=10 if thorough else 3, lens="all")
         else:
-            kw = dict(keys=40 if thorough else 10, blocks=8 if thorough else 4, lens="all")
+            kw = dict(keys=120 if thorough else 10, blocks=10 if thorough else 4, lens="all")
         evs = []
         for i, (cfg_id, extra) in enumerate(cfgs):
             k = dict(kw)
@@ -176,7 +176,7 @@ def c01(tier, seed):
     c.model_check("MC_API.tla", "MC_API.cfg" if thorough else "MC_API_quick.cfg", "MC_API", workers=8, timeout=1500)
     evs = []
     for i, (cfg_id, extra, fam) in enumerate(all_configs_for_roundtrip() + [(sid, {}, fam) for sid, fam in shadow_cfgs(("AES", "Kuznyechik"))]):
-        kw = dict(keys=10 if thorough else 3, blocks=6 if thorough else 2, lens="all" if thorough else "few")
+        kw = dict(keys=30 if thorough else 3, blocks=8 if thorough else 2, lens="all" if thorough else "few")
         if fam:
             kw["family"] = fam
         kw.update(extra)
@@ -195,7 +195,7 @@ def c01(tier, seed):
 def c03(tier, seed):
     c = Check("C03", tier, seed)
     thorough = tier == T
-    kw = dict(keys=8 if thorough else 3, blocks=5 if thorough else 2)
+    kw = dict(keys=24 if thorough else 3, blocks=6 if thorough else 2)
     groups = [("AES", AES_CFGS + [(sid, {}) for sid, _ in shadow_cfgs(("AES",))]),
               ("Kuznyechik", KUZ_CFGS + [(sid, {}) for sid, _ in shadow_cfgs(("Kuznyechik",))]), ("Serpent", SERPENT_CFGS)]
     for fam, cfgs in groups:
@@ -226,7 +226,7 @@ def c04(tier, seed):
             ("aes-detect-off", {"force_off": 1}, "AES"), ("kuz-soft", {}, "Kuznyechik"), ("kuz-compact", {}, "Kuznyechik")]
     cfgs += [(sid, {}, fam) for sid, fam in shadow_cfgs(("AES", "Kuznyechik"))]
     for i, (cfg_id, extra, fam) in enumerate(cfgs):
-        kw = dict(mult=3 if thorough else 2, random=4 if thorough else 1)
+        kw = dict(mult=4 if thorough else 2, random=8 if thorough else 1)
         if thorough and fam:
             kw["offsets"] = "all"
         if fam:
@@ -308,7 +308,7 @@ def c13(tier, seed):
     thorough = tier == T
     if have_fam("DES"):
         c.model_check("sanity/DesWeakSanity.tla", "sanity/DesWeakSanity.cfg", "DesWeakSanity", workers=2, timeout=600)
-    kw = dict(random=400 if thorough else 40)
+    kw = dict(random=3000 if thorough else 40)
     if thorough:
         kw["parity"] = "all"
     evs = c.drive("default", "weak", **kw)
@@ -334,7 +334,7 @@ def c15(tier, seed):
         traces = [(f"{cfg_id}#{perm}", c.drive(cfg_id, "order", perm=perm, keys=3 if thorough else 2)) for perm in (0, 1, 7 + seed, 99 + seed)]
         c.validate(merge_by_run(traces), API_MOD, API_CFG, f"order-{cfg_id}", what=f"order independence across processes ({cfg_id})", shards=1)
     # fresh processes: the first AES use races on the detection cache
-    nproc = 60 if thorough else 10
+    nproc = 200 if thorough else 10
     tevs = []
     for i in range(nproc):
         fams = "AES,Kuznyechik" if i % 3 else "AES,Kuznyechik,Serpent,DES,Blowfish,Twofish,Camellia,Magma,Threefish"
@@ -362,7 +362,7 @@ def c16(tier, seed):
         shadow.build_shadow(sid)
         plan.append((sid, {}, fam))
     for i, (cfg_id, extra, fam) in enumerate(plan):
-        kw = dict(keys=6 if thorough else 3)
+        kw = dict(keys=10 if thorough else 3)
         if fam:
             kw["family"] = fam
         kw.update(extra)
@@ -412,7 +412,7 @@ def c20(tier, seed):
     c = Check("C20", tier, seed)
     thorough = tier == T
     groups = []
-    kw = dict(keys=10 if thorough else 3, blocks=6 if thorough else 3, lens="all" if thorough else "few")
+    kw = dict(keys=30 if thorough else 3, blocks=8 if thorough else 3, lens="all" if thorough else "few")
     traces = []
     for cfg_id in ("default", "release"):
         traces.append((cfg_id, c.drive(cfg_id, "conf", may_die=True, **kw)))
